@@ -111,6 +111,8 @@ type VC struct {
 	loopHead   map[*loopInfo]*State
 	symsUsed   map[string]bool // prelude symbols the contracts of this function mention
 	symsFrozen map[string]bool // ... as found by the discovery pass
+	knownVars  map[string]string // state variables (name -> sort) the discovery pass met
+	globalPkg  map[string]string // state variable of a package-level variable -> package path
 }
 
 func (vc *VC) fresh(prefix, sort string) string {
@@ -284,6 +286,60 @@ func (vc *VC) havocAll(st *State, why string) {
 	st.parents = nil
 	st.epoch = vc.epochN
 	vc.markWritten("*")
+	if why != "" {
+		vc.note(why)
+	}
+}
+
+// foreignVar: does the state variable model state outside the package of the function under
+// verification -- a package-level variable of another package, or a ghost variable declared in the
+// externs file (operating system, standard library)?  Heap arrays are never foreign: what a callee can
+// reach of them is decided by the references it is given.
+func (vc *VC) foreignVar(name string) bool {
+	if strings.HasPrefix(name, "g_") {
+		if p, ok := vc.globalPkg[name]; ok {
+			own := vc.P.logPkg.Types.Path()
+			if vc.fn != nil {
+				own = vc.pkgOf(vc.fn).Path()
+			}
+			return p != own
+		}
+		return false
+	}
+	if strings.HasPrefix(name, "G_") {
+		n := strings.TrimPrefix(name, "G_")
+		if n == "panicking" {
+			return false
+		}
+		return vc.P.spec.GhostExtern[n]
+	}
+	return false
+}
+
+// havocForeign: a callee of another package that is handed no reference (only strings, numbers,
+// booleans) cannot reach any object or package-level variable of this package -- this package never
+// stores its references into another package's variables (checked when the program is loaded) -- so
+// only state outside this package becomes arbitrary.
+func (vc *VC) havocForeign(st *State, why string) {
+	keep := map[string]string{}
+	all := map[string]string{}
+	for n, srt := range vc.knownVars {
+		all[n] = srt
+	}
+	for n, srt := range vc.stateSort {
+		all[n] = srt
+	}
+	for _, n := range sortedKeys(all) {
+		if !vc.foreignVar(n) {
+			keep[n] = vc.get(st, n, all[n])
+		} else {
+			vc.markWritten(n)
+		}
+	}
+	vc.epochN++
+	st.vals = keep
+	st.parents = nil
+	st.epoch = vc.epochN
 	if why != "" {
 		vc.note(why)
 	}
